@@ -139,7 +139,7 @@ def baseline(text, ops, hashseed):
     except subprocess.TimeoutExpired:
         raise core.Inconclusive()          # a baseline that does not finish is not a verdict about history independence
     if p.returncode != 0:
-        if 'MemoryError' in p.stderr or p.returncode < 0:
+        if 'MemoryError' in p.stderr or 'SystemError' in p.stderr or p.returncode < 0:     # the capped fresh interpreter itself ran out of memory
             raise core.Inconclusive()
         raise core.HarnessError('baseline worker failed: %s' % p.stderr[-800:])
     return json.loads(p.stdout)
@@ -148,7 +148,7 @@ def baseline(text, ops, hashseed):
 def worker_main():
     try:
         import resource
-        resource.setrlimit(resource.RLIMIT_AS, (3 * 1024 ** 3, 3 * 1024 ** 3))    # a runaway baseline must not take the machine down
+        resource.setrlimit(resource.RLIMIT_AS, (2 * 1024 ** 3, 2 * 1024 ** 3))    # a runaway baseline must not take the machine down
     except Exception:
         pass
     req = json.loads(sys.stdin.read())
@@ -164,9 +164,32 @@ def diff_keys(a, b):
     return sorted(k for k in set(a) | set(b) if a.get(k) != b.get(k))
 
 
+MEMORY_BUCKET = 'history-dependence:memory-exhausted'
+
+
+def _replay_shard(case):
+    """a shard that died of memory exhaustion is replayed as a whole, in a capped subprocess"""
+    out = core.Outcome()
+    code = ('import sys, resource\n'
+            'resource.setrlimit(resource.RLIMIT_AS, (3 * 1024 ** 3, 3 * 1024 ** 3))\n'
+            'from vpx.props import c18\n'
+            'try:\n'
+            '    acc = c18.run_shard(%r, %r, %r)\n'
+            'except MemoryError:\n'
+            '    sys.exit(77)\n'
+            'sys.exit(78 if any("memory-exhausted" in b for b in acc.buckets) else 0)\n') % (case['replay_shard'], case['seed'], case['tier'])
+    p = subprocess.run([sys.executable, '-W', 'ignore', '-c', code], cwd=core.VERIF, capture_output=True, text=True)
+    if p.returncode in (77, 78) or 'MemoryError' in p.stderr:
+        out.fail(MEMORY_BUCKET, 'shard %r (seed %r) ran out of its 3 GiB address space again' % (case['replay_shard'], case['seed']))
+    out.nontrivial = True
+    return out
+
+
 def check_case(case):
     """case: {docs: [texts], history: [[doc index, op, shared?], ...], ops: [distinct ops]}"""
     import pyx12.params
+    if 'replay_shard' in case:
+        return _replay_shard(case)
     out = core.Outcome()
     docs = case['docs']
     hist = case['history']
@@ -190,11 +213,12 @@ def check_case(case):
     for step, (di, op, use_shared) in enumerate(hist):
         try:
             got = do_op(docs[di], op, shared if use_shared else None)
+            # results go through JSON in the baseline: normalise the same way
+            got = json.loads(json.dumps(got))
         except MemoryError:
-            out.fail('history-dependence:%s:memory-exhausted' % op['kind'], 'step %d (document #%d, %s) ran out of memory (8 GiB cap) in the history but not in a fresh interpreter' % (step, di, op_key(op)))
+            core.release_reserve()
+            out.fail('history-dependence:%s:memory-exhausted' % op['kind'], 'step %d (document #%d, %s) ran out of memory (3 GiB cap) in the history but not in a fresh interpreter' % (step, di, op_key(op)))
             break
-        # results go through JSON in the baseline: normalise the same way
-        got = json.loads(json.dumps(got))
         exp = base[(di, op_key(op))]
         if got != exp:
             dk = diff_keys(got, exp)
